@@ -85,6 +85,17 @@ Theorem C05_reject : forall k s a ch,
 Proof. exact tail_reject. Qed.
 Print Assumptions C05_reject.
 
+(* the same as a statement about write_arrays itself (any input, any location not yet occupied): when the arrays and the metadata could
+   be written and structural validation rejects the committed state, the call raises ValueError and ends in `cleaned` *)
+Theorem C05_rejected_write : forall k pre g md md' ov a ch tr1,
+  exists_geff k pre = false ->
+  write_body g md (init pre) = (mkst (Some (ZG a ch)) tr1, Ok md') ->
+  validate_structure k (Some (ZG (aset "geff" (AGeff (Some md')) a) ch)) = Err ValueError ->
+  exists tr, write_arrays k g md true ov (init pre)
+             = (mkst (cleaned k (aset "geff" (AGeff (Some md')) a) ch) tr, Err ValueError).
+Proof. exact write_arrays_rejected. Qed.
+Print Assumptions C05_rejected_write.
+
 Theorem C05_reject_frame : forall k a ch root',
   cleaned k a ch = Some root' ->
   (forall name, name <> path_NODES -> name <> path_EDGES -> get root' name = alookup name ch) /\
